@@ -1164,12 +1164,17 @@ func (h *Handler) Query(ctx context.Context, rawq *SearchQuery) (ret_ *SearchRes
 		if q.Sort != MapSort {
 			if q.Limit > 0 && len(res.Blobs) > q.Limit {
 				if wantAround {
-					aroundPos := sort.Search(len(res.Blobs), func(i int) bool {
-						return res.Blobs[i].Blob.String() >= q.Around.String()
-					})
+					// res.Blobs is ordered by q.Sort, not by blobref: look for q.Around linearly.
+					aroundPos := -1
+					for i, rb := range res.Blobs {
+						if rb.Blob == q.Around {
+							aroundPos = i
+							break
+						}
+					}
 					// If we got this far, we know q.Around is in the results, so this below should
 					// never happen
-					if aroundPos == len(res.Blobs) || res.Blobs[aroundPos].Blob != q.Around {
+					if aroundPos < 0 {
 						panic("q.Around blobRef should be in the results")
 					}
 					lowerBound := max(aroundPos-q.Limit/2, 0)
